@@ -21,7 +21,7 @@ package arch
 //@   requires @injective {C12} forallk(a, in, forallk(b, in, has(in, a) && has(in, b) && in[a] == in[b] ==> a == b))
 //@   ensures @inverse {C12 C13} forallk(k, in, has(in, k) ==> has(result, in[k]) && result[in[k]] == k)
 //@   ensures @domain {C12 C13} forallk(s, result, has(result, s) ==> existsk(k, in, has(in, k) && in[k] == s))
-//@   loop 1 binder vis
+//@   loop 1 binder vis match range in
 //@     invariant @nonnil nonnil(out)
 //@     invariant @inverse forallk(k, in, vis[k] ==> has(out, in[k]) && out[in[k]] == k)
 //@     invariant @domain forallk(s, out, has(out, s) ==> existsk(k, in, vis[k] && in[k] == s))
